@@ -364,6 +364,8 @@ def main() -> int:
     a = ap.parse_args()
     os.chdir(VERIF)
     _quiet_unraisable()
+    import logging
+    logging.getLogger("asyncio").setLevel(logging.CRITICAL)     # 'Task was destroyed but it is pending!' after injected faults
     if a.setup:
         return setup()
     if not a.prop:
